@@ -47,9 +47,16 @@ def build_workspace(repo, wd, cfg):
     for extra in cfg.get('extra_crates', []):
         shutil.copytree(os.path.join(VERIF, 'kani', extra), os.path.join(ws, os.path.basename(extra)))
         members = members + [os.path.basename(extra)]
+    # optional "patch_crates": {"<crates.io package name>": "<dir under /verif>"}: executable stand-ins for dependencies
+    # CBMC cannot run (storage engines, thread pools); copied to <ws>/stubs/<name>, patched in next to color-eyre.
+    # Each stand-in is an ASSUMPTION of the unit and must be listed in its "assumptions".
+    patches = ''
+    for pkg, src in sorted(cfg.get('patch_crates', {}).items()):
+        shutil.copytree(os.path.join(VERIF, src), os.path.join(ws, 'stubs', pkg), ignore=shutil.ignore_patterns('target', 'Cargo.lock'))
+        patches += '%s = { path = "stubs/%s" }\n' % (pkg, pkg)
     with open(os.path.join(ws, 'Cargo.toml'), 'w') as f:
-        f.write('[workspace]\nmembers = [%s]\nresolver = "2"\n[patch.crates-io]\ncolor-eyre = { path = "shims/color-eyre" }\n' %
-                ', '.join('"%s"' % m for m in members))
+        f.write('[workspace]\nmembers = [%s]\nresolver = "2"\n[patch.crates-io]\ncolor-eyre = { path = "shims/color-eyre" }\n%s' %
+                (', '.join('"%s"' % m for m in members), patches))
     shutil.copy(os.path.join(repo, 'Cargo.lock'), os.path.join(ws, 'Cargo.lock'))
     os.makedirs(os.path.join(ws, '.cargo'))
     with open(os.path.join(ws, '.cargo', 'config.toml'), 'w') as f:
@@ -100,7 +107,7 @@ def run_harness(ws, cfg, h, target_dir, tier):
     cmd = ['cargo', 'kani', '-p', cfg['package']] + cfg.get('cargo_args', []) + \
           ['-Z', 'function-contracts', '-Z', 'stubbing', '--harness', h['name'], '--output-format', 'regular']
     cmd += h.get('args', [])
-    timeout = h.get('timeout', 900 if tier == 'quick' else 3600)
+    timeout = h.get('timeout', 1800 if tier == 'quick' else 7200)
     # memory guard: 24 GB address space per harness
     wrapped = ['bash', '-c', 'ulimit -v %d; exec "$@"' % (h.get('mem_gb', 24) * 1024 * 1024), 'x'] + cmd
     rc, out, wall, timed_out = sh(wrapped, cwd=ws, env=env, timeout=timeout)
@@ -180,7 +187,8 @@ def run_unit(repo, unit, cfg, wd, tier='quick', prop=None):
                     fn, clause = c['description'].split('/', 1)
                 else:
                     # a reachable panic / overflow / OOB inside the real function: no-panic obligation
-                    fn, clause = h.get('function', h['name']), 'no-panic'
+                    # (a harness whose input assumption isolates ONE crash class may name the clause that guards it: "panic_clause")
+                    fn, clause = h.get('function', h['name']), h.get('panic_clause', 'no-panic')
                 ob = '%s/%s/%s' % (h.get('unit_alias', unit), fn, clause)
                 if ob in seen:
                     continue
